@@ -3494,6 +3494,257 @@ H14_FILTER_UNIQUE_SCREEN = dict(
 H14_ALL = H14_SCREEN_PROPS + H14_VIEW_PROPS + [H14_PLATE_ID, H14_PLATE_NAME, H14_PLATE_LT, H14_PLATE_MERGE, H14_SCREEN_COMBINE,
                                                H14_SELECT_UNIQUE, H14_FILTER_UNIQUE_VIEW, H14_FILTER_UNIQUE_SCREEN]
 ALL += H14_ALL
+# ---- C08, second part: fast_mvn.sample_mvn_from_precision (vocabulary: end of Model/Mvn.v; proofs: Proofs/C08SourceObj.v) ----
+# The function may raise and it draws: it denotes a program in `mprog` = the sampler's free monad gprog over `result`.
+# `chol` (np.linalg.cholesky: any function, Err = LinAlgError) and `lin_solve` (np.linalg.solve, only reached for a masked
+# array) are parameters.  Trusted, one library call each: np.random.default_rng() = a generator, rng.normal(size=n) = the draw
+# node of n standard normals (variances 1), Q.shape[0] = number of rows, A.T of a square matrix, a plain float array is not a
+# numpy MaskedArray, scipy's solve_triangular(U, z, lower=False) = back substitution with U, cho_solve((U, False), b) = forward
+# substitution with U.T then back substitution with U, `+` on two vectors.  The conditional expression, the None tests, which
+# matrix is factorised / transposed / solved with, what is added and the order come from the translation.
+_GV, _GM, _GNV, _GZV = "list qnum", "list list qnum", "list nat", "list Z"
+_MAT_FN = "list (list qnum) -> result (list (list qnum))"
+C08_SAMPLE_MVN = dict(
+    file="src/batchie/fast_mvn.py", func="sample_mvn_from_precision", out="SrcMvn.v", imports="Lib.Num Model.Gibbs Model.Mvn",
+    name="src_sample_mvn_from_precision", overload=True, ifexp=True,
+    monad=dict(type="mprog", bind="dmv", ok="mp_ret", fold="mp_fold", unwrap="mp_unwrap", bind_quote=""),
+    pyparams=["Q", "mu", "mu_part", "chol_factor", "rng"], pydefaults=["None", "None", "False", "None"],
+    params=[("chol", _MAT_FN), ("lin_solve", "list (list qnum) -> list qnum -> list qnum"), ("Q", _GM), ("mu", "opt list qnum"),
+            ("mu_part", "opt list qnum"), ("chol_factor", "bool"), ("rng", "opt pygen")],
+    returns=_GV, vars={"rng": "pygen", "Lt": _GM, "z": _GV, "result": _GV},
+    prims=[("np.random.default_rng()", "DefaultRng", "pygen"),
+           ("np.linalg.cholesky(__Q)", "!mp_lift (chol {Q})", _GM, {"Q": _GM}),
+           ("__A.T", "np_transpose_sq {A}", _GM, {"A": _GM}),
+           ("__Q.shape[0]", "Z.of_nat (length {Q})", "Z", {"Q": _GM}),
+           ("__r.normal(size=__n)", "!mp_draw_std {n}", _GV, {"r": "pygen", "n": "Z"}),
+           ("isinstance(__A, np.ma.core.MaskedArray)", "false", "bool", {"A": _GM}),
+           ("np.linalg.solve(__A, __z)", "lin_solve {A} {z}", _GV, {"A": _GM, "z": _GV}),
+           ("solve_triangular(__U, __z, lower=False)", "solve_upper {U} {z}", _GV, {"U": _GM, "z": _GV}),
+           ("sp.linalg.cho_solve((__U, False), __b)", "cho_solve_upper {U} {b}", _GV, {"U": _GM, "b": _GV}),
+           ("__a + __b", "np_vadd {a} {b}", _GV, {"a": _GV, "b": _GV})],
+)
+ALL += [C08_SAMPLE_MVN]
+# ---- C08, second part: LegacySparseDrugComboImpl.__init__ / reset_model on the WHOLE object (Model/Gibbs.v: pyimpl = every
+# attribute the constructor assigns; the first part's methods see it split into cfg_of / pi_obs / pi_st).  Trusted: the
+# attribute table below (which record component an attribute is), np.zeros / np.ones / np.ones_like (shape -> array of zeros /
+# ones; a negative dimension raises), defaultdict(list) = the empty association list, scalar * array, the float literals,
+# and that `super().__init__(**kwargs)` of a class without a base class (object.__init__) sets no attribute.  WHICH array
+# gets which shape and initial value, and which attributes reset_model touches, come from the translation.
+_st_field = lambda f, t: (f, ("pyimpl", t, "%s (pi_st {obj})" % f, "pi_set_%s {obj} {val}" % f))
+_ob_field = lambda a, f, t: (a, ("pyimpl", t, "o_%s (pi_obs {obj})" % f, "pi_set_o_%s {obj} {val}" % f))
+_pi_field = lambda a, f, t: (a, ("pyimpl", t, "pi_%s {obj}" % f, "set_pi_%s {obj} {val}" % f))
+_DL = "list (Z * list nat)"
+_ST_ARRAYS = [("W", _GM), ("W0", _GV), ("V2", _GM), ("V1", _GM), ("V0", _GV), ("alpha", "qnum"), ("prec", "qnum"), ("tau", _GV),
+              ("tau0", "qnum"), ("phi2", _GM), ("phi1", _GM), ("phi0", _GV), ("eta2", _GV), ("eta1", _GV), ("eta0", "qnum"),
+              ("gam", _GV), ("Mu", _GV)]
+_IMPL_FIELDS = dict(
+    [_st_field(f, t) for f, t in _ST_ARRAYS]
+    + [_ob_field("y", "y", _GV), _ob_field("cline", "cl", _GZV), _ob_field("dd1", "dd1", _GZV), _ob_field("dd2", "dd2", _GZV),
+       _ob_field("cline_idxs", "cidx", _DL), _ob_field("dd1_idxs", "1idx", _DL), _ob_field("dd2_idxs", "2idx", _DL)]
+    + [_pi_field("D", "D", "Z"), _pi_field("n_drugdoses", "ndd", "Z"), _pi_field("n_clines", "ncl", "Z"),
+       _pi_field("min_Mu", "minMu", "qnum"), _pi_field("max_Mu", "maxMu", "qnum"), _pi_field("a0", "a0", "qnum"),
+       _pi_field("b0", "b0", "qnum"), _pi_field("individual_eff", "individual_eff", "bool"), _pi_field("intercept", "intercept", "bool"),
+       _pi_field("fake_intercept", "fake_intercept", "bool"), _pi_field("local_shrinkage", "local_shrinkage", "bool"),
+       _pi_field("mult_gamma_proc", "mult_gamma_proc", "bool"), _pi_field("num_mcmc_steps", "steps", "Z")])
+_IMPL = dict(file="src/batchie/models/sparse_combo.py", cls="LegacySparseDrugComboImpl", out="SrcGibbsObj.v",
+             imports="Lib.Num Model.Gibbs Model.Mvn Generated.SrcGibbs", overload=True,
+             float_consts={"0.0": ("q0", "qnum"), "1.0": ("q1", "qnum"), "100.0": ("q100", "qnum")})
+_NP_ALLOC = [
+    ("np.zeros(__s, dtype=np.float32)", "!np_zeros2 {s}", _GM, {"s": "(Z * Z)"}),
+    ("np.zeros((__n,), np.float32)", "!np_zeros1 {n}", _GV, {"n": "Z"}),
+    ("np.zeros(__n, np.float32)", "!np_zeros1 {n}", _GV, {"n": "Z"}),
+    ("np.ones(__n, dtype=np.float32)", "!np_ones1 {n}", _GV, {"n": "Z"}),
+    ("np.ones(__n, np.float32)", "!np_ones1 {n}", _GV, {"n": "Z"}),
+    ("np.ones_like(__a)", "np_ones_like1 {a}", _GV, {"a": _GV}), ("np.ones_like(__a)", "np_ones_like2 {a}", _GM, {"a": _GM}),
+    ("__x * __a", "np_smul {x} {a}", _GV, {"x": "qnum", "a": _GV}), ("__x * __a", "map (np_smul {x}) {a}", _GM, {"x": "qnum", "a": _GM}),
+    ("__a * __x", "np_vmuls {a} {x}", _GV, {"a": _GV, "x": "qnum"}), ("__A * __x", "np_mmuls {A} {x}", _GM, {"A": _GM, "x": "qnum"}),
+    ("defaultdict(list)", "[]", _DL),
+]
+C08_IMPL_INIT = dict(
+    _IMPL, func="__init__", name="src_impl_init", fields=_IMPL_FIELDS, prims=_NP_ALLOC,
+    pyparams=["self", "n_dims", "n_drugdoses", "n_clines", "intercept", "fake_intercept", "individual_eff", "mult_gamma_proc",
+              "local_shrinkage", "a0", "b0", "min_Mu", "max_Mu"],
+    pydefaults=["True", "True", "True", "True", "True", "1.1", "1.1", "-10.0", "10.0"],
+    params=[("self", "pyimpl"), ("n_dims", "Z"), ("n_drugdoses", "Z"), ("n_clines", "Z"), ("intercept", "bool"), ("fake_intercept", "bool"),
+            ("individual_eff", "bool"), ("mult_gamma_proc", "bool"), ("local_shrinkage", "bool"), ("a0", "qnum"), ("b0", "qnum"),
+            ("min_Mu", "qnum"), ("max_Mu", "qnum")],
+    returns="pyimpl", implicit_return="{self}", vars={"sh": "(Z * Z)"},
+    ignore=["super().__init__(**kwargs)"],
+)
+C08_IMPL_RESET = dict(
+    _IMPL, func="reset_model", name="src_impl_reset_model", fields=_IMPL_FIELDS, prims=_NP_ALLOC,
+    pyparams=["self"], params=[("self", "pyimpl")], returns="pyimpl", implicit_return="{self}", vars={},
+)
+ALL += [C08_IMPL_INIT, C08_IMPL_RESET]
+# ---- C08, second part: the wrapper class SparseDrugCombo (Model/Mvn.v: pysdc = the seven attributes its constructor assigns).
+# Trusted: the attribute table, a.copy() / a.astype(FloatingPointType) have the value of a (floats are exact rationals here),
+# SparseDrugComboMCMCSample(...) builds the model's `sample` record from its keywords, LegacySparseDrugComboImpl(...) runs the
+# translated constructor on a new instance, a method call on self.wrapped_model runs the translated method and the wrapper goes
+# on holding the mutated object, experiment_space.n_unique_* are two integers.  WHICH array is exported under which name, which
+# argument reaches which parameter of the legacy constructor, and what each wrapper calls come from the translation.
+_SDC_FIELDS = dict(_IMPL_FIELDS, **{
+    "wrapped_model": ("pysdc", "pyimpl", "sdc_wrapped {obj}", "set_sdc_wrapped {obj} {val}"),
+    "_rng": ("pysdc", "opt pygen", "sdc_rng {obj}", "set_sdc_rng {obj} {val}"),
+    "n_embedding_dimensions": ("pysdc", "Z", "sdc_n_dims {obj}", "set_sdc_n_dims {obj} {val}"),
+    "n_unique_treatments": ("pysdc", "Z", "sdc_n_treatments {obj}", "set_sdc_n_treatments {obj} {val}"),
+    "n_unique_samples": ("pysdc", "Z", "sdc_n_samples {obj}", "set_sdc_n_samples {obj} {val}"),
+    "predict_interactions": ("pysdc", "bool", "sdc_predict_interactions {obj}", "set_sdc_predict_interactions {obj} {val}"),
+    "interaction_log_transform": ("pysdc", "bool", "sdc_interaction_log_transform {obj}", "set_sdc_interaction_log_transform {obj} {val}")})
+_SDC = dict(_IMPL, cls="SparseDrugCombo", fields=_SDC_FIELDS, pyparams=["self"], params=[("self", "pysdc")], vars={})
+C08_IMPL_N_OBS = dict(_IMPL, func="n_obs", name="src_impl_n_obs", fields=_IMPL_FIELDS, pyparams=["self"], params=[("self", "pyimpl")],
+                      returns="Z", vars={}, prims=[("len(__l)", "Z.of_nat (length {l})", "Z")])
+C08_SDC_INIT = dict(
+    _SDC, func="__init__", name="src_sdc_init",
+    pyparams=["self", "experiment_space", "n_embedding_dimensions", "fake_intercept", "individual_eff", "mult_gamma_proc",
+              "local_shrinkage", "a0", "b0", "min_Mu", "max_Mu", "rng", "predict_interactions", "interaction_log_transform", "intercept"],
+    pydefaults=["True", "True", "True", "True", "1.1", "1.1", "-10.0", "10.0", "None", "False", "True", "True"],
+    params=[("self", "pysdc"), ("space_n_samples", "Z"), ("space_n_treatments", "Z"), ("n_embedding_dimensions", "Z"),
+            ("fake_intercept", "bool"), ("individual_eff", "bool"), ("mult_gamma_proc", "bool"), ("local_shrinkage", "bool"),
+            ("a0", "qnum"), ("b0", "qnum"), ("min_Mu", "qnum"), ("max_Mu", "qnum"), ("rng", "opt pygen"),
+            ("predict_interactions", "bool"), ("interaction_log_transform", "bool"), ("intercept", "bool")],
+    returns="pysdc", implicit_return="{self}",
+    prims=[("experiment_space.n_unique_treatments", "space_n_treatments", "Z"),
+           ("experiment_space.n_unique_samples", "space_n_samples", "Z")],
+    kwcalls={"LegacySparseDrugComboImpl": (
+        "!src_impl_init pi_blank {n_dims} {n_drugdoses} {n_clines} {intercept} {fake_intercept} {individual_eff} {mult_gamma_proc} "
+        "{local_shrinkage} {a0} {b0} {min_Mu} {max_Mu}", "pyimpl",
+        [("n_dims", "Z", None), ("n_drugdoses", "Z", None), ("n_clines", "Z", None), ("intercept", "bool", None),
+         ("fake_intercept", "bool", None), ("individual_eff", "bool", None), ("mult_gamma_proc", "bool", None),
+         ("local_shrinkage", "bool", None), ("a0", "qnum", None), ("b0", "qnum", None), ("min_Mu", "qnum", None), ("max_Mu", "qnum", None)])},
+)
+C08_SDC_STATE = dict(
+    _SDC, func="get_model_state", name="src_sdc_get_model_state", returns="sample",
+    prims=[("__a.copy()", "{a}", _GV, {"a": _GV}), ("__a.copy()", "{a}", _GM, {"a": _GM}),
+           ("__a.astype(FloatingPointType)", "{a}", _GV, {"a": _GV}), ("__a.astype(FloatingPointType)", "{a}", _GM, {"a": _GM})],
+    kwcalls={"SparseDrugComboMCMCSample": (
+        "{{| sm_W := {W}; sm_W0 := {W0}; sm_V2 := {V2}; sm_V1 := {V1}; sm_V0 := {V0}; sm_alpha := {alpha}; sm_precision := {precision} |}}",
+        "sample", [("precision", "qnum", None), ("alpha", "qnum", None), ("W0", _GV, None), ("V0", _GV, None), ("W", _GM, None),
+                   ("V2", _GM, None), ("V1", _GM, None)])},
+)
+C08_SDC_N_OBS = dict(_SDC, func="n_obs", name="src_sdc_n_obs", returns="Z",
+                     prims=[("__w.n_obs()", "!src_impl_n_obs {w}", "Z", {"w": "pyimpl"})])
+C08_SDC_RESET = dict(_SDC, func="reset_model", name="src_sdc_reset_model", returns="pysdc", implicit_return="{self}",
+                     effects=[("self.wrapped_model.reset_model()", "self'", "!sdc_on_wrapped {state} (src_impl_reset_model (sdc_wrapped {state}))")])
+C08_SDC_SET_RNG = dict(_SDC, func="set_rng", name="src_sdc_set_rng", pyparams=["self", "rng"], params=[("self", "pysdc"), ("rng", "pygen")],
+                       returns="pysdc", implicit_return="{self}")
+C08_SDC_RNG = dict(_SDC, func="rng", name="src_sdc_rng", returns="opt pygen")
+C08_SDC_STEP = dict(
+    _SDC, func="step", name="src_sdc_step", returns="pysdc", implicit_return="{self}",
+    monad=dict(type="gprog", bind="dop", ok="GRet", fold="prog_fold", unwrap="gprog_has_no_unwrap", bind_quote=""),
+    params=[("run", "blk -> st -> gprog st"), ("self", "pysdc")],
+    effects=[("self.wrapped_model.mcmc_step()", "self'",
+              "!gbind (src_mcmc_step run (pi_steps (sdc_wrapped {state})) (pi_st (sdc_wrapped {state}))) (fun s__ => GRet (sdc_with_state {state} s__))")],
+)
+ALL += [C08_IMPL_N_OBS, C08_SDC_INIT, C08_SDC_STATE, C08_SDC_N_OBS, C08_SDC_RESET, C08_SDC_SET_RNG, C08_SDC_RNG, C08_SDC_STEP]
+
+# ---- C10 (second part): the dict methods of the two posterior-sample classes and Theta.equals (vocabulary: Model/ThetaDicts.v;
+# generated file Generated/SrcThetaDicts.v; proofs Proofs/C10SourceDicts.v).  A parameter dict is a `strdict pval` (string keys = code
+# point lists, values of the four kinds PArr / PNum / PInts / PNums); the dataclass fields are typed by kind.  Trusted per entry: the
+# dataclass declaration (checked against the class body: decorator, bases, field names and order, no __init__ / __post_init__ ...),
+# the coercions field -> dict value (PArr / PNum) and back (as_arr / as_num: Err 95 = a value of another kind, outside the model),
+# and one library call each below.  Which field goes under which key, the three exported columns, zip / dict on the way back, the
+# ** unpacking, the loops / early returns / key tests of equals come from the translation.
+_PV = "(pval A F)"
+_PD = "strdict " + _PV
+_AF = [("A", "Type"), ("F", "Type")]
+_TBL = "pairdict F"                       # single_effect_lookup: {(sample id, treatment id): float}
+_ROWS = "list ((Z * Z) * F)"              # list(d.items()) of such a dict
+_D10 = dict(out="SrcThetaDicts.v", imports="Model.ThetaDicts", strings=True, strdict_elem=_PV, overload=True, key_error=94, type_error=93,
+            coerce=[("A", _PV, "PArr {x}"), ("F", _PV, "PNum {x}")],
+            checked_coerce=[(_PV, "A", "as_arr {x}"), (_PV, "F", "as_num {x}")])
+_NO_STORE = "a_store_to_this_field_is_not_declared {obj} {val}"       # not a Gallina term: a store is refused by Coq
+_SC = "(sc_sample A F)"
+_SC_FIELD_T = [("W", "A"), ("W0", "A"), ("V2", "A"), ("V1", "A"), ("V0", "A"), ("alpha", "F"), ("precision", "F")]
+_SC_FIELDS = {n: (_SC, t, "sc_%s {obj}" % n, _NO_STORE) for n, t in _SC_FIELD_T}
+_SC_CLASS = dict(_D10, file="src/batchie/models/sparse_combo.py", cls="SparseDrugComboMCMCSample", fields=_SC_FIELDS,
+                 dataclass=dict(owner=_SC, bases=["Theta"], fields=[n for n, _ in _SC_FIELD_T]))
+C10D_SC_PRIVATE = dict(      # `return self.__dict__`: the instance dict of the dataclass = its fields in declaration order
+    _SC_CLASS, func="private_parameters_dict", name="src_sc_private_parameters_dict", pyparams=["self"],
+    params=_AF + [("self", _SC)], returns=_PD, vars={},
+    # checked: the class defines neither of these itself, so it runs Theta's translated shared_parameters_dict / equals
+    inherits=[("SparseDrugComboMCMCSample", "Theta", ["shared_parameters_dict", "equals"])])
+C10D_SC_FROM = dict(         # `return cls(**private_params)`: the dataclass constructor takes exactly its fields
+    _SC_CLASS, func="from_dicts", name="src_sc_from_dicts", pyparams=["cls", "private_params", "shared_params"],
+    params=_AF + [("private_params", _PD), ("shared_params", _PD)], returns=_SC, vars={},
+    kwcalls={"cls": ("Build_sc_sample A F {W} {W0} {V2} {V1} {V0} {alpha} {precision}", _SC, [(n, t, None) for n, t in _SC_FIELD_T])})
+C10D_THETA_SHARED = dict(    # the base class's shared_parameters_dict (`return {}`), inherited by SparseDrugComboMCMCSample
+    _D10, file="src/batchie/core.py", cls="Theta", func="shared_parameters_dict", name="src_theta_shared_parameters_dict",
+    pyparams=["self"], params=_AF + [("T", "Type"), ("self", "T")], returns=_PD, vars={})
+_IN = "(in_sample A F)"
+_IN_FIELD_T = [("W", "A"), ("V2", "A"), ("precision", "F"), ("single_effect_lookup", _TBL)]
+_IN_FIELDS = {n: (_IN, t, "in_%s {obj}" % ("lookup" if n == "single_effect_lookup" else n), _NO_STORE) for n, t in _IN_FIELD_T}
+_IN_CLASS = dict(_D10, file="src/batchie/models/sparse_combo_interaction.py", cls="SparseDrugComboInteractionMCMCSample",
+                 fields=_IN_FIELDS, dataclass=dict(owner=_IN, bases=["Theta"], fields=[n for n, _ in _IN_FIELD_T]))
+C10D_IN_PRIVATE = dict(
+    _IN_CLASS, func="private_parameters_dict", name="src_in_private_parameters_dict", pyparams=["self"],
+    params=_AF + [("self", _IN)], returns=_PD, vars={"params": _PD},
+    inherits=[("SparseDrugComboInteractionMCMCSample", "Theta", ["equals"])])       # checked: it runs Theta's translated equals
+C10D_IN_SHARED = dict(
+    _IN_CLASS, func="shared_parameters_dict", name="src_in_shared_parameters_dict", pyparams=["self"],
+    params=_AF + [("self", _IN)], returns=_PD,
+    vars={"dict_items": _ROWS, "single_effect_lookup_keys1": _PV, "single_effect_lookup_keys2": _PV, "single_effect_lookup_vals": _PV,
+          "params": _PD},
+    prims=[("list(__d.items())", "{d}", _ROWS, {"d": _TBL}),                     # the items in the dict's iteration order
+           ("np.array(__l)", "PInts {l}", _PV, {"l": "list Z"}),                 # a 1-d array holding these values
+           ("np.array(__l)", "PNums {l}", _PV, {"l": "list F"})])
+C10D_IN_FROM = dict(
+    _IN_CLASS, func="from_dicts", name="src_in_from_dicts", pyparams=["cls", "private_params", "shared_params"],
+    params=_AF + [("private_params", _PD), ("shared_params", _PD)], returns=_IN,
+    vars={"single_effect_lookup_keys": "list (Z * Z)", "single_effect_lookup": _TBL, "res": _IN},
+    prims=[("zip(__a, __b)", "!zip_ids {a} {b}", "list (Z * Z)", {"a": _PV, "b": _PV}),           # two id columns: pairs up to the shorter
+           ("zip(__a, __b)", "!zip_vals {a} {b}", _ROWS, {"a": "list (Z * Z)", "b": _PV}),         # (the zip object is consumed once)
+           ("dict(__l)", "table_of_pairs {l}", _TBL, {"l": _ROWS})],                               # inserted from the left
+    kwcalls={"cls": ("Build_in_sample A F {W} {V2} {precision} {single_effect_lookup}", _IN, [(n, t, None) for n, t in _IN_FIELD_T])})
+# Theta.equals, for ANY class T of samples given by its class test and its two dict methods (parameters of the translation)
+C10D_EQUALS = dict(
+    _D10, file="src/batchie/core.py", cls="Theta", func="equals", name="src_theta_equals", pyparams=["self", "other"],
+    params=_AF + [("aeqb", "A -> A -> bool"), ("feqb", "F -> F -> bool"), ("T", "Type"), ("same_class", "T -> T -> bool"),
+                  ("priv", "T -> result (pdict A F)"), ("shar", "T -> result (pdict A F)"), ("self", "T"), ("other", "T")],
+    returns="bool", vars={"d1": _PD, "d2": _PD, "k": "pystr", "v": _PV}, loop_return=True, tail_dup=True,
+    ignore=["print(__a)"],
+    prims=[("isinstance(__b, type(__a))", "same_class {a} {b}", "bool", {"a": "T", "b": "T"}),
+           ("__t.private_parameters_dict()", "!priv {t}", _PD, {"t": "T"}),      # method dispatch: the class's own dict methods
+           ("__t.shared_parameters_dict()", "!shar {t}", _PD, {"t": "T"}),
+           ("isinstance(__v, Number)", "pval_is_number {v}", "bool", {"v": _PV}),
+           ("isinstance(__v, ArrayType)", "pval_is_array {v}", "bool", {"v": _PV}),
+           ("__a != __b", "!py_ne feqb {a} {b}", "bool", {"a": _PV, "b": _PV}),                     # two scalars
+           ("np.array_equal(__a, __b)", "!np_array_equal aeqb feqb {a} {b}", "bool", {"a": _PV, "b": _PV})])
+C10D_ALL = [C10D_SC_PRIVATE, C10D_SC_FROM, C10D_THETA_SHARED, C10D_IN_PRIVATE, C10D_IN_SHARED, C10D_IN_FROM, C10D_EQUALS]
+ALL += C10D_ALL
+
+# ---- C14 / C06 leftovers: Screen.concat, Screen.single_treatment_effects (vocabulary: end of Model/Views.v; Generated/SrcPlates.v),
+# SizeScorer.score (end of Model/Scores.v; Generated/SrcScoring.v) ----
+# Screen.concat: `new_tag` is the identity of the Screen objects that combine creates (never tested here; the link holds for every value)
+L10B_SCREEN_CONCAT = dict(
+    _H14, cls="Screen", func="concat", name="src_screen_concat", pyparams=["cls", "screens"], unused_params=["cls"],
+    params=[("new_tag", "Z"), ("screens", "list pyscreen")], returns="pyscreen", vars={"result": "pyscreen", "screen": "pyscreen"},
+    prims=[("len(__l)", "Z.of_nat (length {l})", "Z", {"l": "list pyscreen"}),
+           ("__l[0]", "!list_get {l} (0)", "pyscreen", {"l": "list pyscreen"}),
+           ("__l[1:]", "tl {l}", "list pyscreen", {"l": "list pyscreen"}),
+           # a.combine(b) runs the translated Screen.combine; its result is a new object
+           ("__a.combine(__b)", "!(dor c__ <- src_screen_combine {a} {b}; Ok (new_tag, c__))", "pyscreen", {"a": "pyscreen", "b": "pyscreen"})],
+    raises=[("Cannot concat empty list", 24)])
+# Screen.single_treatment_effects: create_single_treatment_effect_array is ANY function effect_array (its own translation is linked
+# by C20 in the Synergy vocabulary); `key_error` = the tag its KeyError carries
+L10B_SCREEN_STE = dict(
+    _H14, cls="Screen", func="single_treatment_effects", name="src_screen_single_treatment_effects", pyparams=["self"],
+    params=[("E", "Type"), ("key_error", "Z"), ("effect_array", "(list Z -> list (list Z) -> list Z -> result (list E))"),
+            ("self", "pyscreen")],
+    returns="opt list E", vars={}, prims=C14_SCREEN_SIZE["prims"][:-1],       # the C14 block's Screen attributes
+    except_tags={"KeyError": "key_error"},
+    kwcalls={"create_single_treatment_effect_array": (
+        "!effect_array {sample_ids} {treatment_ids} {observation}", "list E",
+        [("sample_ids", "list Z", None), ("treatment_ids", "list (list Z)", None), ("observation", "list Z", None)])},
+    ignore=["logger.warning(__a)"])
+# SizeScorer.score: the plates dict is `dict subset` (C06: a Plate where a ScreenSubset is expected is its rows), plate.size = their number
+L10B_SIZE_SCORER = dict(
+    file="src/batchie/scoring/size.py", cls="SizeScorer", func="score", out="SrcScoring.v", imports="Model.Scores",
+    name="src_size_scorer_score", pyparams=["self", "plates", "distance_matrix", "samples", "rng", "progress_bar"],
+    unused_params=["self", "distance_matrix", "samples", "rng", "progress_bar"],
+    params=[("plates", "dict subset")], returns="dict", vars={"scores": "dict"},
+    prims=[("__p.size", "Z.of_nat (length {p})", "Z", {"p": "subset"})])
+L10B_EXTRA = [L10B_SCREEN_CONCAT, L10B_SCREEN_STE, L10B_SIZE_SCORER]
+ALL += L10B_EXTRA
 # ---- the argument-handling glue of the command-line wrappers: cli/argument_parsing.py (str_to_bool, cast_dict_to_type,
 # KVAppendAction.__call__), the statements of each get_args() after parser.parse_args(), introspection.py
 # (vocabulary: end of Model/Cli.v; proofs: Proofs/C18SourceArgs.v, C06SourceArgs.v, C04SourceArgs.v, C03SourceArgs.v).
@@ -3529,7 +3780,7 @@ ARGS_KV_APPEND = dict(
     # `args` = the namespace SEEN AT the action's destination attribute self.dest: None (argparse's default) or the dict so far
     params=[("args", "opt " + _KD_SS), ("values", "list str")], returns="opt " + _KD_SS, implicit_return="{args}",
     vars={"k": "str", "v": "str", "d": _KD_SS},
-    assert_error=20, unpack_error=24, except_tags={"ValueError": [23, 24]}, kdict_or_empty=True,
+    assert_error=20, unpack_error=24, except_tag_lists={"ValueError": [23, 24]}, kdict_or_empty=True,
     prims=[("len(__l)", "Z.of_nat (length {l})", "Z", {"l": "list str"}),
            ("__l[0]", "!list_get {l} (0)", "str", {"l": "list str"}),
            ("__s.split(__sep, __n)", "!str_split {s} {sep} {n}", "list str", {"s": "str", "sep": "str", "n": "Z"}),
@@ -3679,7 +3930,7 @@ ARGS_GET_CLASS = dict(
     _INTRO, func="get_class", name="src_get_class", pyparams=["package_name", "class_name", "base_class"],
     params=_MOW + [("package_name", "str"), ("class_name", "str"), ("base_class", "base_class")], returns="opt Obj",
     vars={"package": "Mod", "module_name": "str", "module": "Mod", "cls": "opt Obj"},
-    loop_return=True, implicit_return="None", truthy=_TRUTHY,          # falling off the loop returns None
+    loop_return_rewrite=True, implicit_return="None", truthy=_TRUTHY,          # falling off the loop returns None
     prims=[("importlib.import_module(__n)", "!w_import W {n}", "Mod", {"n": "str"}),
            # the triples walk_packages yields: only the module name is read
            ("pkgutil.walk_packages(__p.__path__, __n + '.')", "map (fun n__ => (tt, n__, tt)) (w_walk W {p} {n})", "list (unit * str * unit)",
